@@ -50,6 +50,13 @@ var spinWraps = []struct{ name, tmpl string }{
 	{"switch", "switch 1 {\ncase 1:\n%s\n}\nprobe(\"after\")"},
 	{"module", "module mm {\n%s\n}\nprobe(\"after\")"},
 	{"arg", "probe2(1, func() {\n%s\n}())\nprobe(\"after\")"},
+	// tail positions: nothing follows that would poll the context again
+	{"try-empty-catch-tail", "func w() {\n%s\n}\ntry {\nw()\n} catch {\n}"},
+	{"try-empty-catch-tail-in-func", "func w() {\n%s\n}\nfunc guarded() {\ntry {\nw()\n} catch {\n}\n}\nprobe(guarded())"},
+	{"try-empty-catch-finally-tail", "func w() {\n%s\n}\ntry {\nw()\n} catch e {\n} finally {\n}"},
+	{"deferred-after-return", "func w() {\ndefer func() {\n%s\n}()\nreturn 1\n}\nprobe(w())"},
+	{"deferred-after-return-tail", "func w(v) {\ndefer func() {\n%s\n}()\nreturn v * 2\n}\nw(21)"},
+	{"deferred-named-after-return", "func spin() {\n%s\n}\nfunc w() {\ndefer spin()\nreturn 1\n}\nx = w()"},
 }
 
 // cores outside F0 (channels) and the callback wrapper: wall-clock oracle only
@@ -254,7 +261,7 @@ func streamCancel(o *Out, r *rand.Rand, n int, thorough bool) {
 		// quick: a rotating third of the wall-clock cases
 		var sel []wc
 		for i, c := range wcs {
-			if i%3 == int(o.Sum.Seed%3) || c.name == "callback" || c.name == "nilco-left" {
+			if i%3 == int(o.Sum.Seed%3) || c.name == "callback" || c.name == "nilco-left" || strings.Contains(c.name, "tail") || strings.Contains(c.name, "after-return") {
 				sel = append(sel, c)
 			}
 		}
